@@ -65,7 +65,7 @@ class C07(Config):
     bin = "c07"
     release_too = False
     n_tags = None
-    classes = {}
+    classes = {1: "C07-split-change-below-dust-threshold"}
     shard_size = 400
     rule = ("FeeRule::fee_required (prim zip317 and StandardFeeRule) and ChangeStrategy::compute_balance for "
             "Single/MultiOutputChangeStrategy on generated per-pool value lists, script sizes, dust policies, split "
@@ -81,7 +81,12 @@ class C07(Config):
     assumptions = ["usize is 64 bits (the harness target)",
                    "slice lengths are below 2^32 and transparent script sizes below 2^32 (no usize overflow in the action count)",
                    "wallet metadata pool totals sum to at most MAX_MONEY (AccountMeta::total_value otherwise panics by its own expect)"]
-    partial_clauses = []
+    partial_clauses = [
+        "fee = ZIP 317 fee of the final shape unless dust is folded into it (AddDustToFee, zero-valued change) or a costed transparent change output came out zero and was omitted: evaluated by prop_case (fee_exact_unless) on every case, not proved; proved: fee >= fee of the final shape, fee >= change-less fee",
+        "no panic for valid amounts: evaluated by prop_case (Panic accepted only when the wallet-metadata pool totals exceed MAX_MONEY, AccountMeta::total_value's own expect); not proved",
+        "per-output dust clause under Reject is proved only outside known-finding class 1 (split minimum below the dust threshold); MultiOutput with SplitPolicy::single_output() is covered by prop_case only",
+        "no bridge theorem run_case => prop_case; the property clauses are proved about the model and evaluated independently on the implementation's outcome",
+    ]
 
     @staticmethod
     def gen():
